@@ -11,7 +11,7 @@ from ..oracle import caching_flags_off
 from ..oracle import (ACCEPT, REJECT, EITHER, slack3, slack_tripped_int, and3,
                       verdict3, validsig, sha256, shake256, pubkey_of_seed,
                       bool_of, base_mult, point_add, as_key_arg, PREFIXES, DECORATIONS, SUFFIXES,
-                      LOCK_FORMS, LIMITS, in_form, code_of, WRAPS, wrap_lock,
+                      LOCK_FORMS, LIMITS, in_form, code_of, WRAPS, wrap_lock, malleate,
                       ARG_STYLES, styled_flags, styled_sigfields, maybe_twice)
 
 PID = 'C15'
@@ -43,7 +43,7 @@ REQUIRED_PROBES = ['refund_at_deadline', 'refund_deadline_minus_1', 'claim_after
                    'corrupt_preimage', 'corrupt_pubkey', 'corrupt_selector', 'threshold_per_call',
                    'default_timestamp', 'crafted_witness', 'witness_with_code', 'witness_ending_in_return',
                    'lock_form_bytes', 'lock_form_resrc', 'lock_form_redec', 'explicit_limits',
-                   'clock_read_failed'] + \
+                   'clock_read_failed', 'malleated_signature'] + \
     ['lock_wrapped_' + x for x in sorted(set(WRAPS) - {'none'})]
 
 LKINDS = ['htlc_sha', 'htlc_shake', 'htlc2_sha', 'htlc2_shake', 'ptlc', 'ptlc_tweak']
@@ -155,6 +155,8 @@ def gen_step(rng, cell, oid, out, clocks, vname, thr, fault_free):
             step['faults'].append({'at_read': rng.below(2), 'kind': 'fail'})
         if rng.chance(1, 6):
             step['corrupt'] = {'item': rng.below(3), 'bit': rng.below(520)}
+            if rng.chance(1, 5):
+                step['corrupt'] = {'item': 0, 'bit': 0, 'malleate': True}
         elif rng.chance(1, 7):
             # a witness the attacker composes himself from observed material
             step['crafted'] = [rng.below(64) for _ in range(rng.rng(1, 4))]
@@ -434,6 +436,9 @@ def execute(plan, run):
             it = bytearray(items[j])
             bit = cor['bit'] % (len(it) * 8)
             it[bit // 8] ^= 1 << (bit % 8)
+            if cor.get('malleate') and len(items[0]) in (64, 65):
+                it = malleate(items[0])     # (R, S + L): non-canonical, not a flipped bit
+                run.probe('malleated_signature')
             items = items[:j] + [bytes(it)] + items[j + 1:]
             w = push_script(items)
             top = len(items) - 1
